@@ -1,5 +1,522 @@
-//! C20 — placeholder while the check is being written (keeps the workspace loadable).
+//! C20 — Simulation is reproducible: same seed, same trace, same verdict.
+//!
+//! For every built-in simulation / DST harness (see harnesses.rs) generated
+//! (seed, preset, operation count) triples are run FOUR times: twice back to back in one fresh
+//! process (`c20 pair …`) and once in each of two more fresh child processes
+//! (`c20 child <harness> <seed> <preset> <n>`: fresh ASLR, fresh RandomState / ahash seeds, fresh
+//! wall clock). Each run yields a canonical transcript (operation log, results, violations,
+//! final state with maps sorted by the harness, verdict). All four must be identical; the first
+//! differing transcript line is reported.
+
+mod canon;
+mod harnesses;
+
+use harnesses::{def, run_harness, HARNESSES};
+use proptest::prelude::*;
+use serde::{Deserialize, Serialize};
+use serde_json::json;
+use vcore::runner::catch;
+use vcore::{CaseCtx, Level, Session};
+
+#[derive(Clone, Debug, Serialize, Deserialize)]
+struct Triple {
+    harness: String,
+    seed: u64,
+    preset: String,
+    n: u32,
+}
+
+/// One run in the current thread: transcript lines (+ a final `#meta` line).
+fn run_once(t: &Triple) -> Result<Vec<String>, String> {
+    // BUGGIFY statistics are thread-local and only ever reset by the caller (as the tree's own
+    // run_redis_dst_batch does before every simulation)
+    redis_sim::buggify::reset_stats();
+    match catch(|| run_harness(&t.harness, t.seed, &t.preset, t.n)) {
+        Ok(Ok(tr)) => {
+            let mut lines = tr.lines;
+            lines.push(format!("#meta = ops {} faults {:?}", tr.ops, tr.faults));
+            Ok(lines)
+        }
+        Ok(Err(e)) => Err(e),
+        Err(p) => Ok(vec![format!("PANIC = {}", p)]),
+    }
+}
+
+const RUN2_MARK: &str = "#####-second-run-in-the-same-process-#####";
+
+fn child_main(rest: &[String]) -> ! {
+    vcore::runner::install_quiet_panic_hook();
+    let pair = rest.first().map(|s| s.as_str()) == Some("pair");
+    let t = Triple {
+        harness: rest.get(1).cloned().unwrap_or_default(),
+        seed: rest.get(2).and_then(|s| s.parse().ok()).unwrap_or(0),
+        preset: rest.get(3).cloned().unwrap_or_default(),
+        n: rest.get(4).and_then(|s| s.parse().ok()).unwrap_or(0),
+    };
+    let h = std::thread::Builder::new()
+        .stack_size(64 << 20)
+        .spawn(move || {
+            let mut lines = run_once(&t)?;
+            if pair {
+                // same process, same thread, back to back
+                lines.push(RUN2_MARK.to_string());
+                lines.extend(run_once(&t)?);
+            }
+            Ok::<Vec<String>, String>(lines)
+        })
+        .expect("spawn");
+    match h.join() {
+        Ok(Ok(lines)) => {
+            use std::io::Write;
+            let out = std::io::stdout();
+            let mut w = std::io::BufWriter::new(out.lock());
+            for l in lines {
+                let _ = writeln!(w, "{}", l);
+            }
+            let _ = w.flush();
+            std::process::exit(0)
+        }
+        Ok(Err(e)) => {
+            eprintln!("c20 child: {}", e);
+            std::process::exit(4)
+        }
+        Err(_) => std::process::exit(3),
+    }
+}
+
+fn run_child(mode: &str, t: &Triple) -> Result<Vec<String>, String> {
+    let exe = std::env::current_exe().map_err(|e| e.to_string())?;
+    let out = std::process::Command::new(exe)
+        .args([mode, &t.harness, &t.seed.to_string(), &t.preset, &t.n.to_string()])
+        .env_remove("VERIF_SEED")
+        .output()
+        .map_err(|e| format!("spawn child: {}", e))?;
+    if out.status.code() != Some(0) {
+        return Err(format!(
+            "child process for {:?} ended with {:?}: {}",
+            t,
+            out.status,
+            String::from_utf8_lossy(&out.stderr).lines().last().unwrap_or("")
+        ));
+    }
+    Ok(String::from_utf8_lossy(&out.stdout).lines().map(|s| s.to_string()).collect())
+}
+
+fn first_diff(a: &[String], b: &[String]) -> Option<usize> {
+    if a == b {
+        return None;
+    }
+    let n = a.len().min(b.len());
+    for i in 0..n {
+        if a[i] != b[i] {
+            return Some(i);
+        }
+    }
+    Some(n)
+}
+
+fn key_of(line: &str) -> &str {
+    line.split(" = ").next().unwrap_or(line)
+}
+
+fn value_of(line: &str) -> &str {
+    line.splitn(2, " = ").nth(1).unwrap_or("")
+}
+
+fn transcript_hash(lines: &[String]) -> u64 {
+    let mut h = 0xcbf29ce484222325u64;
+    for l in lines {
+        h ^= vcore::fnv64_str(l);
+        h = h.wrapping_mul(0x100000001b3);
+    }
+    h
+}
+
+fn mask_created_at(line: &str) -> String {
+    const TAG: &str = "created_at_ms: ";
+    let mut out = String::with_capacity(line.len());
+    let mut rest = line;
+    while let Some(p) = rest.find(TAG) {
+        out.push_str(&rest[..p + TAG.len()]);
+        out.push('#');
+        rest = &rest[p + TAG.len()..];
+        let digits = rest.chars().take_while(|c| c.is_ascii_digit()).count();
+        rest = &rest[digits..];
+    }
+    out.push_str(rest);
+    out
+}
+
+fn sorted_tokens(s: &str, sep: &str) -> Vec<String> {
+    let mut v: Vec<String> = s
+        .trim()
+        .trim_start_matches('[')
+        .trim_end_matches(']')
+        .split(sep)
+        .map(|x| x.trim().to_string())
+        .filter(|x| !x.is_empty())
+        .collect();
+    v.sort();
+    v
+}
+
+/// top-level elements of a `[a, b {x, y}, c]` list
+fn top_level_elems(s: &str) -> Vec<String> {
+    let inner = s.trim().trim_start_matches('[').trim_end_matches(']');
+    let mut out = Vec::new();
+    let mut depth = 0i32;
+    let mut cur = String::new();
+    for c in inner.chars() {
+        match c {
+            '{' | '(' | '[' => {
+                depth += 1;
+                cur.push(c)
+            }
+            '}' | ')' | ']' => {
+                depth -= 1;
+                cur.push(c)
+            }
+            ',' if depth == 0 => {
+                out.push(cur.trim().to_string());
+                cur.clear();
+            }
+            _ => cur.push(c),
+        }
+    }
+    if !cur.trim().is_empty() {
+        out.push(cur.trim().to_string());
+    }
+    out
+}
+
+const KF01: &str = "KF-C20-01";
+const KF02: &str = "KF-C20-02";
+const KF03: &str = "KF-C20-03";
+const KF04: &str = "KF-C20-04";
+const KF05: &str = "KF-C20-05";
+
+/// Exact matchers of the listed findings: harness + first diverging transcript field + the
+/// shape of the difference. Everything else is a violation.
+fn classify(t: &Triple, at: usize, a: &[String], b: &[String]) -> Option<&'static str> {
+    let (la, lb) = match (a.get(at), b.get(at)) {
+        (Some(x), Some(y)) => (x.as_str(), y.as_str()),
+        _ => return None,
+    };
+    let (ka, kb) = (key_of(la), key_of(lb));
+    if ka != kb {
+        return None;
+    }
+    // KF-C20-05: the nodes' Lamport clocks differ right after a partition heal (anti-entropy
+    // sync): AntiEntropyManager::get_keys_in_buckets hands the deltas over in the iteration
+    // order of the replicated_keys HashMap and every applied delta advances the receiver's
+    // clock to max(local, remote) + 1, so the clock — and with it the stamp of every later
+    // write — depends on that order.
+    if (t.harness == "multi_broadcast" || t.harness == "multi_partitioned") && ka.ends_with(".clocks") {
+        let healed = if ka == "final.clocks" {
+            true
+        } else {
+            let opkey = ka.replace(".clocks", ".op");
+            a[..at]
+                .iter()
+                .rev()
+                .take(3)
+                .any(|l| key_of(l) == opkey && value_of(l).starts_with("HEAL"))
+        };
+        return if healed { Some(KF05) } else { None };
+    }
+    match t.harness.as_str() {
+        // KF-C20-01: the in-flight queue after a gossip round holds the same number of messages
+        // with the same multiset of delivery times (the seeded loss/delay stream is consumed in
+        // the same order) but attached to different targets / in a different order: the targets
+        // were visited in the iteration order of route_deltas' std HashMap.
+        "multi_partitioned" if ka.ends_with(".queue") => {
+            let times = |l: &str| -> Vec<String> {
+                let mut v: Vec<String> = value_of(l)
+                    .split_whitespace()
+                    .map(|tok| {
+                        let after = tok.split('@').nth(1).unwrap_or("");
+                        after.split('#').next().unwrap_or("").to_string()
+                    })
+                    .collect();
+                v.sort();
+                v
+            };
+            let (ta, tb) = (times(la), times(lb));
+            if !ta.is_empty() && ta == tb {
+                Some(KF01)
+            } else {
+                None
+            }
+        }
+        // KF-C20-02: node states after a DSTSimulation step differ by a permutation of the
+        // nodes that were down: same multiset of state kinds, same multiset of
+        // Recovering{start, completion} values, at least two nodes not running — the recovery
+        // draws were handed out in CrashSimulator::crashed_nodes()' HashMap order.
+        "dst" if ka.ends_with(".nodes") => {
+            let kinds = |l: &str| -> (Vec<String>, Vec<String>, usize) {
+                let el = top_level_elems(value_of(l));
+                let mut kinds: Vec<String> = el
+                    .iter()
+                    .map(|e| {
+                        if e.contains("Crashed") {
+                            "C"
+                        } else if e.contains("Recovering") {
+                            "R"
+                        } else {
+                            "U"
+                        }
+                        .to_string()
+                    })
+                    .collect();
+                kinds.sort();
+                let mut rec: Vec<String> = el.iter().filter(|e| e.contains("Recovering")).cloned().collect();
+                rec.sort();
+                let down = el.iter().filter(|e| !e.contains("Running")).count();
+                (kinds, rec, down)
+            };
+            let (ka_, ra, da) = kinds(la);
+            let (kb_, rb, db) = kinds(lb);
+            if ka_ == kb_ && ra == rb && da >= 2 && db >= 2 {
+                Some(KF02)
+            } else {
+                None
+            }
+        }
+        // RedisDSTSimulation wraps DSTSimulation and exposes no node states: the matcher is the
+        // step/operation log diverging after at least two nodes were down at the same time
+        // (crashes - recoveries >= 2 in a step summary of the common prefix).
+        "redis_dst" if ka.starts_with("step[") => {
+            let down = |l: &str| -> Option<i64> {
+                // "time T ops O crashes C recoveries R"
+                let w: Vec<&str> = value_of(l).split_whitespace().collect();
+                let c = w.iter().position(|x| *x == "crashes").and_then(|i| w.get(i + 1)).and_then(|x| x.parse::<i64>().ok())?;
+                let r = w.iter().position(|x| *x == "recoveries").and_then(|i| w.get(i + 1)).and_then(|x| x.parse::<i64>().ok())?;
+                Some(c - r)
+            };
+            // the permutation happens while two nodes are down; it becomes visible (another
+            // node answers) only when one of them is back, possibly many steps later
+            let worst_common = a[..at]
+                .iter()
+                .filter(|l| {
+                    let k = key_of(l);
+                    k.starts_with("step[") && !k.contains(".op[")
+                })
+                .filter_map(|l| down(l))
+                .max();
+            let here = [down(la), down(lb)].into_iter().flatten().max();
+            if worst_common.unwrap_or(0) >= 2 || here.unwrap_or(0) >= 2 {
+                Some(KF02)
+            } else {
+                None
+            }
+        }
+        // KF-C20-03: only the wall-clock creation stamp of an object differs, anywhere.
+        "sim_store" => {
+            let ma: Vec<String> = a.iter().map(|l| mask_created_at(l)).collect();
+            let mb: Vec<String> = b.iter().map(|l| mask_created_at(l)).collect();
+            if ma == mb {
+                Some(KF03)
+            } else {
+                None
+            }
+        }
+        // KF-C20-04: a recorded reply whose element order (SMEMBERS, KEYS, HGETALL, HKEYS) or
+        // choice (SPOP) comes from an ahash table with per-process / per-instance seeds.
+        "scenario" if t.preset == "sets" && ka.starts_with("history[") => {
+            let split = |l: &str| -> Option<(String, String)> {
+                let v = value_of(l);
+                let p = v.rfind(" -> ")?;
+                Some((v[..p].to_string(), v[p + 4..].to_string()))
+            };
+            let (ca, ra) = split(la)?;
+            let (cb, rb) = split(lb)?;
+            if ca != cb {
+                return None;
+            }
+            let cmd = ca.split(" cmd ").nth(1).unwrap_or("");
+            let unordered = ["SMembers(", "HGetAll(", "Keys(", "HKeys("].iter().any(|p| cmd.starts_with(p));
+            if unordered && sorted_tokens(&ra, ", ") == sorted_tokens(&rb, ", ") {
+                return Some(KF04);
+            }
+            if cmd.starts_with("SPop(") && ra.starts_with('"') && rb.starts_with('"') {
+                return Some(KF04);
+            }
+            None
+        }
+        _ => None,
+    }
+}
+
+fn check_triple(t: &Triple, ctx: &mut CaseCtx<'_>) -> Result<(), String> {
+    if def(&t.harness).is_none() {
+        return Err(format!("unknown harness {}", t.harness));
+    }
+    // three fresh processes, concurrently: one runs the triple twice back to back on one
+    // thread (the "same process" pair: nothing of this checker shares its address space, and
+    // the simulators' stderr chatter stays out of the checker's output), two run it once each
+    let (pair, c1, c2) = std::thread::scope(|s| {
+        let hp = s.spawn(|| run_child("pair", t));
+        let h1 = s.spawn(|| run_child("child", t));
+        let h2 = s.spawn(|| run_child("child", t));
+        (hp.join(), h1.join(), h2.join())
+    });
+    let pair = pair.map_err(|_| "child runner thread died".to_string())??;
+    let cut = pair
+        .iter()
+        .position(|l| l == RUN2_MARK)
+        .ok_or_else(|| "pair process printed no second run".to_string())?;
+    let p1: Vec<String> = pair[..cut].to_vec();
+    let p2: Vec<String> = pair[cut + 1..].to_vec();
+    let c1 = c1.map_err(|_| "child runner thread died".to_string())??;
+    let c2 = c2.map_err(|_| "child runner thread died".to_string())??;
+    ctx.add_evaluations(3);
+    ctx.label(&format!("preset:{}:{}", t.harness, t.preset));
+    if p1.first().map(|l| l.starts_with("PANIC")).unwrap_or(false) {
+        ctx.label("panicked");
+    }
+    // non-trivial: >= 100 operations and (where the harness has faults) >= 1 injected fault
+    if let Some(meta) = p1.last().filter(|l| l.starts_with("#meta")) {
+        let w: Vec<&str> = meta.split_whitespace().collect();
+        let ops: u64 = w.get(3).and_then(|x| x.parse().ok()).unwrap_or(0);
+        let faults = w.get(5).copied().unwrap_or("None");
+        let fault_ok = faults == "None" || faults != "Some(0)";
+        if ops >= 100 && fault_ok {
+            ctx.nontrivial(&(t.harness.clone(), t.seed, t.preset.clone(), t.n));
+        }
+        ctx.label(if faults == "None" { "faults:n/a" } else if faults == "Some(0)" { "faults:0" } else { "faults:>=1" });
+    }
+    let hashes = [transcript_hash(&p1), transcript_hash(&p2), transcript_hash(&c1), transcript_hash(&c2)];
+    if hashes.iter().all(|h| *h == hashes[0]) && p1 == p2 && p1 == c1 && p1 == c2 {
+        ctx.label("identical");
+        return Ok(());
+    }
+    // earliest divergence from the first in-process run
+    let runs: [(&str, &Vec<String>); 3] = [("second in-process run", &p2), ("child process 1", &c1), ("child process 2", &c2)];
+    let mut best: Option<(usize, &str, &Vec<String>)> = None;
+    for (name, r) in runs.iter() {
+        if let Some(at) = first_diff(&p1, r) {
+            if best.map(|(b, _, _)| at < b).unwrap_or(true) {
+                best = Some((at, name, r));
+            }
+        }
+    }
+    let (at, who, other) = match best {
+        Some(b) => b,
+        None => {
+            // all equal to p1 (hash collision impossible here) — children differ among themselves only
+            return Ok(());
+        }
+    };
+    let in_process = first_diff(&p1, &p2).is_some();
+    ctx.label(if in_process { "diverged:in-process" } else { "diverged:cross-process-only" });
+    if let Some(id) = classify(t, at, &p1, other) {
+        // every differing run must show the same listed discrepancy
+        let all_match = runs.iter().all(|(_, r)| match first_diff(&p1, r) {
+            None => true,
+            Some(a) => classify(t, a, &p1, r) == Some(id),
+        });
+        if all_match && ctx.tolerate(id) {
+            ctx.label(&format!("tolerated:{}", id));
+            return Ok(());
+        }
+    }
+    let show = |v: &Vec<String>, i: usize| v.get(i).cloned().unwrap_or_else(|| "<transcript ends>".to_string());
+    let clip = |s: String| if s.len() > 1500 { format!("{}…", &s[..s.char_indices().take(1500).last().map(|(i, _)| i).unwrap_or(0)]) } else { s };
+    Err(format!(
+        "harness {} preset {} seed {} n {}: transcripts differ ({}): first in-process run vs {} at line {} field `{}`\n    run A: {}\n    run B: {}\n    previous (common) line: {}\n    transcript hashes [in-process 1, in-process 2, child 1, child 2] = {:016x?}",
+        t.harness,
+        t.preset,
+        t.seed,
+        t.n,
+        if in_process { "already inside one process" } else { "between processes only" },
+        who,
+        at,
+        key_of(&show(&p1, at)),
+        clip(show(&p1, at)),
+        clip(show(other, at)),
+        if at > 0 { clip(show(&p1, at - 1)) } else { "<none>".into() },
+        hashes
+    ))
+}
+
+fn triple_strategy(hname: &'static str, thorough: bool) -> impl Strategy<Value = Triple> {
+    let d = def(hname).expect("harness");
+    let presets = d.presets;
+    let (lo, hi) = (d.n.0, if thorough { d.n_thorough } else { d.n.1 });
+    (
+        prop_oneof![3 => 0u64..1000, 2 => any::<u64>(), 1 => Just(42u64), 1 => Just(12345u64)],
+        any::<u16>(),
+        // below the non-trivial threshold only rarely
+        prop_oneof![1 => 1u32..lo, 9 => lo..=hi],
+    )
+        .prop_map(move |(seed, pi, n)| Triple {
+            harness: hname.to_string(),
+            seed,
+            preset: presets[(pi as usize * presets.len()) >> 16].to_string(),
+            n,
+        })
+}
+
 fn main() {
-    eprintln!("c20: not built yet");
-    std::process::exit(2);
+    let args = vcore::parse_args();
+    if matches!(args.rest.first().map(|s| s.as_str()), Some("child") | Some("pair")) {
+        child_main(&args.rest);
+    }
+    let s = Session::new(
+        "C20",
+        Level::Exploration,
+        "per harness (executor, list, set, hash, zset, txn, gcounter, pncounter, orset, vclock, dst, redis_dst, multi_broadcast, multi_partitioned, partition, \
+         streaming, compaction, wal, connection, pipeline, scenario, event_sim, sim_store) generated triples (seed: small / arbitrary u64, preset: every preset \
+         constructor of the harness plus a few generated configurations, n: operation count); each triple = 2 runs in this process + 2 runs in fresh child processes, \
+         four canonical transcripts compared line by line. non-trivial = the run performed >= 100 operations and, where the harness/preset can inject faults, \
+         at least one fault was injected; distinct by (harness, seed, preset, n)",
+        &args,
+    );
+    s.assume("transcript = what the public API exposes; HashMap/HashSet renderings inside Debug output are canonicalised by sorting {…} groups, state dumps are sorted by key");
+    s.assume("thread-local BUGGIFY statistics are reset by the caller before every run (as run_redis_dst_batch does); the same-process pair runs back to back on one thread of a fresh process, so the thread-local BUGGIFY configuration starts from its default and only the harness itself changes it");
+    s.assume("harnesses that are libraries (MultiNodeSimulation, SimulatedConnection, ScenarioBuilder, Simulation, SimulatedObjectStore) are driven by a workload that is a pure function of the seed (a separate DeterministicRng stream)");
+    s.assume("child stderr (eprintln! warnings of the streaming harnesses) is not part of the transcript");
+    s.note("not_covered", json!("security::acl_dst is compiled only with the `acl` cargo feature, which the harness build does not enable"));
+
+    // ---- probes: minimal reproducers of the listed findings (nothing tolerated)
+    let probe = |id: &str, triples: Vec<Triple>| {
+        let reproducer = json!(triples);
+        s.probe(id, reproducer, || {
+            for t in &triples {
+                if let Err(e) = s.strict_eval(|ctx| check_triple(t, ctx)) {
+                    return Some(e);
+                }
+            }
+            None
+        });
+    };
+    let tr = |h: &str, seed: u64, p: &str, n: u32| Triple {
+        harness: h.into(),
+        seed,
+        preset: p.into(),
+        n,
+    };
+    probe(KF01, vec![tr("multi_partitioned", 1, "rf3", 120), tr("multi_partitioned", 2, "rf3", 120), tr("multi_partitioned", 3, "rf3_lossy", 120)]);
+    probe(KF02, vec![tr("dst", 1, "chaos8", 1200), tr("dst", 2, "chaos8", 1200), tr("dst", 3, "chaos8", 1200), tr("dst", 4, "chaos8", 1200)]);
+    probe(KF03, vec![tr("sim_store", 1, "no_faults", 100)]);
+    probe(KF04, vec![tr("scenario", 1, "sets", 200), tr("scenario", 2, "sets", 200)]);
+    probe(KF05, vec![tr("multi_broadcast", 7, "partitions", 200), tr("multi_broadcast", 8, "partitions", 200), tr("multi_broadcast", 9, "lossy_partitions", 200)]);
+
+    // ---- generated triples, one check per harness, all harnesses concurrently
+    let thorough = s.thorough();
+    std::thread::scope(|scope| {
+        for h in HARNESSES {
+            let s = &s;
+            scope.spawn(move || {
+                let name = format!("h_{}", h.name);
+                s.describe_check(
+                    &name,
+                    &format!("presets {:?}, n {}..={}", h.presets, h.n.0, if thorough { h.n_thorough } else { h.n.1 }),
+                );
+                let cases = s.scale(h.cases.0, h.cases.1);
+                s.run_cases(&name, cases, || triple_strategy(h.name, thorough), check_triple);
+            });
+        }
+    });
+    s.finish();
 }
